@@ -3,6 +3,7 @@ import ZapVerif.Model.Entry
 import ZapVerif.Model.Console
 import ZapVerif.Model.MapEnc
 import ZapVerif.Model.Binary
+import ZapVerif.Model.SubEnc
 /-! parser of the encoder-family op format (shared by C01, C02, C10, C16) -/
 namespace ZapVerif.Drv.EncOp
 open Lean ZapVerif ZapVerif.Drv ZapVerif.Json ZapVerif.Enc ZapVerif.Entry
@@ -47,15 +48,53 @@ structure Kinds where
   timeEnc : String
   durEnc : String
   mapView : Bool := false   -- parse for the map encoder: a failed reflection is still a member there
+  hasATL : Bool := true     -- the encoder handed to EncodeTime implements AppendTimeLayout (jsonEncoder: yes; console's slice encoder: no)
+
+/-! The built-in sub-encoders whose output is integer/text-exact are COMPUTED by the model (`Model/SubEnc.lean`) from
+    the raw values of the op; what the harness observed for them (`lvl`, `v`, `nameV`, `timeC`, …) is ignored.  The float
+    encoders, the `time.Format` text and user functions stay parameters. -/
+
+def lvlKind : String → Option SubEnc.LvlEnc
+  | "lower" => some .lower
+  | "capital" => some .capital
+  | "color" => some .color
+  | "capitalColor" => some .capitalColor
+  | _ => none
+
+def durKind : String → Option SubEnc.DurEnc
+  | "nanos" => some .nanos
+  | "millis" => some .millis
+  | "string" => some .string
+  | _ => none
+
+def callerKind : String → Option SubEnc.CallerEnc
+  | "full" => some .full
+  | "short" => some .short
+  | _ => none
+
+def isLayoutKind (k : String) : Bool := k == "iso8601" || k == "rfc3339" || k == "rfc3339nano" || k == "layout"
+
+/-- the observed parameter, parsed only when the kind is not computed -/
+def observedSub (exact : Bool) (j : Json) (encKind k : String) : R SubRes :=
+  if exact then pure .noop else parseSub j encKind k
 
 def parseTimeV (ks : Kinds) (j : Json) : R TimeV := do
-  return ⟨← decInt j "nanos", ← parseSub j ks.timeEnc "v"⟩
+  let nanos ← decInt j "nanos"
+  let exact := ks.timeEnc == "nanos"
+  let observed ← observedSub exact j ks.timeEnc "v"
+  -- layout-based encoders: `encodeTimeLayout` dispatches on the encoder; the formatted text is the parameter
+  let observed := match isLayoutKind ks.timeEnc, observed with
+    | true, .val (.str f) => (SubEnc.encodeTimeLayout ks.hasATL f).res
+    | _, o => o
+  return ⟨nanos, SubEnc.timeRes exact observed nanos⟩
 
 def parsePrim (ks : Kinds) (j : Json) : R Prim := do
   if has j "t" then return .time (← parseTimeV ks (← fld j "t"))
   if has j "d" then
     let d ← fld j "d"
-    return .dur ⟨← decInt d "nanos", ← parseSub d ks.durEnc "v"⟩
+    let nanos ← decInt d "nanos"
+    let k := durKind ks.durEnc
+    return .dur ⟨nanos, SubEnc.durRes k (← observedSub k.isSome d ks.durEnc "v") nanos⟩
   if has j "j" then return .json (← parseJsonLeaf (← hexFld j "j"))
   return .scalar (← parseScalar j)
 
@@ -141,7 +180,8 @@ structure Op where
 
 def parseOp (op : Json) : R Op := do
   let c ← fld op "cfg"
-  let ks : Kinds := ⟨strD c "timeEnc" "nil", strD c "durEnc" "nil", false⟩
+  let console := boolD op "console" false
+  let ks : Kinds := ⟨strD c "timeEnc" "nil", strD c "durEnc" "nil", false, !console⟩
   let cfg : Cfg := { messageKey := hexFldD c "mk", levelKey := hexFldD c "lk", timeKey := hexFldD c "tk",
                      nameKey := hexFldD c "nk", callerKey := hexFldD c "ck", functionKey := hexFldD c "fk",
                      stacktraceKey := hexFldD c "sk", lineEnding := hexFldD c "le", skipLineEnding := boolD c "skipLE" false }
@@ -149,18 +189,38 @@ def parseOp (op : Json) : R Op := do
   let tj ← fld e "time"
   let time ← if boolD tj "zero" false then pure none else (do pure (some (← parseTimeV ks tj)))
   let cj ← fld e "caller"
-  let ent : Ent := { level := intD e "level" 0, lvlRes := ← parseSub e (strD c "lvlEnc" "nil") "lvl",
-                     time := time, name := hexFldD e "name",
-                     nameRes := ← parseSub e "x" "nameV",
-                     callerDefined := boolD cj "defined" false, callerRes := ← parseSub cj (strD c "callerEnc" "nil") "v",
-                     callerStr := hexFldD cj "str", function := hexFldD cj "fn",
+  let level := intD e "level" 0
+  let name := hexFldD e "name"
+  let lk := lvlKind (strD c "lvlEnc" "nil")
+  let ck := callerKind (strD c "callerEnc" "nil")
+  let nameFull := strD c "nameEnc" "nil" == "nil" || strD c "nameEnc" "nil" == "full"
+  let defined := boolD cj "defined" false
+  let file := hexFldD cj "file"
+  let line := intD cj "line" 0
+  let lvlRes := SubEnc.lvlRes lk (← observedSub lk.isSome e (strD c "lvlEnc" "nil") "lvl") level
+  let nameRes := SubEnc.nameRes nameFull (← observedSub nameFull e "x" "nameV") name
+  let callerRes := SubEnc.callerRes ck (← observedSub ck.isSome cj (strD c "callerEnc" "nil") "v") defined file line
+  let ent : Ent := { level := level, lvlRes := lvlRes, time := time, name := name, nameRes := nameRes,
+                     callerDefined := defined, callerRes := callerRes,
+                     callerStr := SubEnc.callerFull defined file line, function := hexFldD cj "fn",
                      message := hexFldD e "msg", stack := hexFldD e "stack" }
   let ctx ← (arrD op "ctx").toList.mapM (fun l => do
     let a ← l.getArr?
     a.toList.mapM (parseField ks))
   let fields ← (arrD op "fields").toList.mapM (parseField ks)
-  return { cfg, ent, ctx, fields, console := boolD op "console" false, consoleSep := hexFldD c "sep",
-           cols := ⟨← optHex e "timeC", ← optHex e "lvlC", ← optHex e "nameC", ← optHex e "callerC"⟩ }
+  -- console columns: fmt.Fprint of what the function appended — computed for the exact kinds
+  let oTimeC ← optHex e "timeC"
+  let oLvlC ← optHex e "lvlC"
+  let oNameC ← optHex e "nameC"
+  let oCallerC ← optHex e "callerC"
+  let timeC := match time with
+    | some t => if ks.timeEnc == "nanos" then SubEnc.colOf t.res none else oTimeC
+    | none => none
+  let lvlC := if lk.isSome then SubEnc.colOf lvlRes none else oLvlC
+  let nameC := if nameFull then SubEnc.colOf nameRes none else oNameC
+  let callerC := if ck.isSome then SubEnc.colOf callerRes none else oCallerC
+  return { cfg, ent, ctx, fields, console := console, consoleSep := hexFldD c "sep",
+           cols := ⟨timeC, lvlC, nameC, callerC⟩ }
 
 /-- skeleton of the map `zapcore.MapObjectEncoder` builds for the op's context + call-site fields -/
 partial def jskel : MapEnc.MV → Json
@@ -172,7 +232,7 @@ partial def jskel : MapEnc.MV → Json
 
 def mapSkeleton (op : Json) : R Json := do
   let c ← fld op "cfg"
-  let ks : Kinds := ⟨strD c "timeEnc" "nil", strD c "durEnc" "nil", true⟩
+  let ks : Kinds := { timeEnc := strD c "timeEnc" "nil", durEnc := strD c "durEnc" "nil", mapView := true }
   let ctx ← (arrD op "ctx").toList.mapM (fun l => do
     let a ← l.getArr?
     a.toList.mapM (parseField ks))
